@@ -198,6 +198,15 @@ def g_c06(tier, seed):
                 samples=[dict(dist="cond event (2,), cond (3,)", sample_shape=[5], cond_batch=[4])], failures=fails[:5], errors=[])
 
 
+@grid("C11")
+def g_c11(tier, seed):
+    cnt = []
+    fails = rt.rt_c11(tier, count=cnt)
+    return dict(evaluations=cnt[0] if cnt else 0, distinct_nontrivial=cnt[0] if cnt else 0,
+                rule="float32 and float64: constructor arguments of magnitude 1e-6..1e6 read back through the accessors (Affine/Scale/Normal/StudentT/Exponential/Uniform), invalid arguments at the edge of validity must be rejected, raw arrays moved to |raw| <= 50 / N(0,s^2): scales and df positive, spline knots strictly increasing with derivatives >= min_derivative, mixture weights normalised, weight-norm rows keep their norm, planar leaky-relu layers (slope <= 1) invertible",
+                samples=[dict(what="Affine.scale", magnitude=100.0, dtype="float32")], failures=fails[:5], errors=[])
+
+
 @grid("C17")
 def g_c17(tier, seed):
     cnt = []
